@@ -338,6 +338,39 @@ func targets() []*target {
 			params: []string{"(h_zero : hop)", "(f_growcap : nat -> nat)", "(s_Logger : lgr)", "(s_ops : hslice)", "(op : hop)", "(heap_ : heap hop)"},
 			result: "option (hnd * heap hop)", final: "None"},
 
+		// ---- PrintCtx.setentry and PrintCtx.set in full (C09): every field of the context is a binder and is handed
+		// back, so the VALUE each field gets is tied (the first-generation pc_setentry keeps the two mode bits) ----
+		pcT("setentry", "pc_setentry_full", []string{"(e_useJSON e_useColor : bool)", "(e_timeLayout : bytes)", "(e_modeUTC : Z)", "(e_valueStringer : Z)", "(e_level : Z)", "(e_attrs : list attr)", "(g_flags : Z)"}, nil),
+		pcT("set", "pc_set_full", []string{"(e_useJSON e_useColor : bool)", "(e_timeLayout : bytes)", "(e_modeUTC : Z)", "(e_valueStringer : Z)", "(e_level : Z)", "(e_attrs : list attr)", "(g_flags : Z)",
+			"(e : Z)", "(lvl : Z)", "(timestamp : Z)", "(stackFrame : Z)", "(msg : bytes)", "(kvps : list attr)"},
+			map[string]callSpec{"*PrintCtx.setentry": {state: "pc_setentry_full " + strings.Join(pcFieldNames(), " ") + " e_useJSON e_useColor e_timeLayout e_modeUTC e_valueStringer e_level e_attrs g_flags", partial: true}}),
+
+		// ---- the skip count (C14 / C10): SetSkip, withSkip, WithSkip.  newChildLogger and withSkip are parameters in
+		// WithSkip: the theorem shows WHICH child name is asked for and that the count is set on THAT child ----
+		{pkg: slogPkg, recv: "Entry", fn: "withSkip", coq: "with_skip", file: "Loggers", strict: true, fallback: "TreeRef.with_skip_ref",
+			effects: []string{"s_extraFrames"}, params: []string{"(s : eref)", "(s_extraFrames : Z)", "(extraFrames : Z)"}, result: "eref * Z", final: "(s, s_extraFrames)",
+			tymap: map[string]string{"*Entry": "eref"}},
+		{pkg: slogPkg, recv: "Entry", fn: "SetSkip", coq: "set_skip", file: "Loggers", strict: true, fallback: "TreeRef.set_skip_ref",
+			calls:   map[string]callSpec{"*Entry.withSkip": {state: "with_skip s s_extraFrames %0", ignoreRes: true}},
+			effects: []string{"s_extraFrames"}, params: []string{"(s : eref)", "(s_extraFrames : Z)", "(extraFrames : Z)"}, result: "Z", final: "s_extraFrames",
+			tymap: map[string]string{"*Entry": "eref"}},
+		{pkg: slogPkg, recv: "Entry", fn: "WithSkip", coq: "with_skip_child", file: "Loggers", strict: true, fallback: "TreeRef.with_skip_child_ref",
+			tymap:  map[string]string{"*Entry": "eref"},
+			calls:  map[string]callSpec{"*Entry.newChildLogger": {pure: "f_newChild %0", spread: true}, "*Entry.withSkip": {pure: "f_withSkip %r %0"}},
+			params: []string{"(f_newChild : bytes -> eref)", "(f_withSkip : eref -> Z -> eref)", "(s_name : bytes)", "(s_extraFrames : Z)", "(extraFrames : Z)"},
+			result: "eref", final: "eref_nil"},
+
+		// nest: s.ops is only read (a list of (group, attrs)); the attributes are slices of heap cells; NewGroupedAttr
+		// is a parameter; the loop runs len(s.ops) rounds (i goes from len-1 down to 0): fuel len+1
+		{pkg: slogPkg, recv: "handler4LogSlog", fn: "nest", coq: "handler_nest", file: "Handlers", strict: true, fallback: "AdaptRef.handler_nest_ref",
+			comment: "(returns (the attributes, the heap); None = panic / out of fuel)", panicT: "None", retfmt: "Some (%s)", effects: []string{"heap_"},
+			tymap:  map[string]string{"[]handlerOp": "list (bytes * hslice)", "handlerOp": "bytes * hslice", "Attrs": "hslice", "Attr": "acell"},
+			fields: map[string]string{"group": "fst", "attrs": "snd"}, globals: []string{"fst", "snd"},
+			fuels:  []string{"S (List.length s_ops)"},
+			calls:  map[string]callSpec{"NewGroupedAttr": {pure: "f_group %0 (h_read heap_ %1)", spread: true}},
+			params: []string{"(h_zero : acell)", "(f_growcap : nat -> nat)", "(f_group : bytes -> list acell -> acell)", "(s_ops : list (bytes * hslice))", "(fields : hslice)", "(heap_ : heap acell)"},
+			result: "option (hslice * heap acell)", final: "None"},
+
 		// ---- RegisterLevel (C17): the options arrive resolved (the regPack fields after every opt ran: o_*);
 		// the seven tables are the state the function hands back; a map write overwrites (mapZ_set / mapB_set) ----
 		{pkg: slogPkg, recv: "", fn: "RegisterLevel", coq: "register", file: "Registry", strict: true, fallback: "RegRef.register_ref",
@@ -387,6 +420,36 @@ func targets() []*target {
 		// the io.Writer is an oracle: it answers (w_m, w_e); what it was handed is the trace tr_
 		bufT("WriteTo", "buf_write_to", []string{"(w : unit)", "(w_m : Z)", "(w_e : err)", "(tr_ : list bytes)"}, "bres (Z * err) (bstate * list bytes)", "", true),
 	}
+}
+
+// the fields of PrintCtx in declaration order, with their Coq types
+var pcFields = [][2]string{{"buf", "gslice"}, {"off", "Z"}, {"lastRead", "Z"}, {"noQuoted", "bool"}, {"jsonMode", "bool"}, {"noColor", "bool"},
+	{"layout", "bytes"}, {"utcTime", "Z"}, {"dedupeAttrs", "bool"}, {"lvl", "Z"}, {"msg", "bytes"}, {"firstLine", "bytes"}, {"restLines", "bytes"},
+	{"eol", "bool"}, {"kvps", "list attr"}, {"clr", "Z"}, {"bg", "Z"}, {"now", "Z"}, {"stackFrame", "Z"}, {"cachedSource", "bytes * Z * bytes"},
+	{"prefix", "bytes"}, {"inGroupedMode", "bool"}, {"skipFirstSep", "bool"}, {"valueStringer", "Z"}}
+
+func pcFieldNames() []string {
+	var out []string
+	for _, f := range pcFields {
+		out = append(out, "s_"+f[0])
+	}
+	return out
+}
+
+// pcT: setentry / set on ALL fields of the context; None = a slice expression out of range
+func pcT(fn, coq string, params []string, calls map[string]callSpec) *target {
+	var ps, tys []string
+	for _, f := range pcFields {
+		ps = append(ps, "(s_"+f[0]+" : "+f[1]+")")
+		tys = append(tys, paren(f[1]))
+	}
+	tup := "(" + strings.Join(pcFieldNames(), ", ") + ")"
+	return &target{pkg: slogPkg, recv: "PrintCtx", fn: fn, coq: coq, file: "Context", strict: true, fallback: "PcRef." + coq + "_ref",
+		comment: "(returns every field of the context; None = panic)", panicT: "None", retfmt: "Some (%s)", effects: pcFieldNames(),
+		tymap: map[string]string{"[]byte": "gslice", "Attrs": "list attr", "time.Time": "Z", "uintptr": "Z", "Source": "bytes * Z * bytes", "ValueStringer": "Z", "*Entry": "Z"},
+		opaque: map[string]string{"e.useJSON": "e_useJSON", "e.useColor": "e_useColor", "e.timeLayout": "e_timeLayout", "e.modeUTC": "e_modeUTC",
+			"e.valueStringer": "e_valueStringer", "e.level": "e_level", "e.attrs": "e_attrs"},
+		calls: calls, params: append(ps, params...), result: "option (" + strings.Join(tys, " * ") + ")", final: "Some " + tup}
 }
 
 // bufT: a method of PrintCtx on the state (s.buf, s.off, s.lastRead).  A []byte is a gslice (visible part,
@@ -461,8 +524,9 @@ var genFiles = [][2]string{
 	{"Escapes", "Require Import Verif.Model.Base Verif.Model.Decision Verif.Model.GoSem Verif.Model.Utf8 Verif.Model.EscRef."},
 	{"Buffers", "Require Import Verif.Model.Base Verif.Model.Decision Verif.Model.GoSem Verif.Model.Utf8 Verif.Model.Buffer Verif.Model.BufRef."},
 	{"Registry", "Require Import Verif.Model.Base Verif.Model.Decision Verif.Model.Dec Verif.Model.GoSem Verif.Model.Level Verif.Model.RegRef."},
-	{"Loggers", "Require Import Verif.Model.Base Verif.Model.Decision Verif.Model.GoSem Verif.Model.TreeRef."},
+	{"Loggers", "Require Import Verif.Model.Base Verif.Model.Decision Verif.Model.Dec Verif.Model.GoSem Verif.Model.TreeRef."},
 	{"Handlers", "Require Import Verif.Model.Base Verif.Model.Decision Verif.Model.GoSem Verif.Model.AdaptRef."},
+	{"Context", "Require Import Verif.Model.Base Verif.Model.Decision Verif.Model.GoSem Verif.Model.Attrs Verif.Model.PcRef."},
 	{"LevelNames", "Require Import Verif.Model.Base Verif.Model.Decision Verif.Model.Dec Verif.Model.GoSem Verif.Model.LevelRef."},
 }
 
